@@ -27,13 +27,15 @@ ALL = [f'C{i:02d}' for i in range(1, 21)]
 
 
 def run_one(job):
-    sid, patch, props, tier, seed, shards = job
+    sid, patch, props, tier, seed, shards = job[:6]
+    reverse = len(job) > 6 and job[6]
     d = tempfile.mkdtemp(prefix='pkv-mx-')
     out = {}
     try:
         shutil.copytree(os.path.join(REPO, 'pokerkit'),
                         os.path.join(d, 'pokerkit'))
-        r = subprocess.run(['patch', '-p1', '-s', '-i', patch], cwd=d,
+        r = subprocess.run(['patch', '-p1', '-s'] + (['-R'] if reverse else [])
+                           + ['-i', patch], cwd=d,
                            capture_output=True, text=True)
         if r.returncode != 0:
             return sid, {p: dict(exit=3, note='patch failed: ' + r.stdout[:200])
@@ -67,6 +69,9 @@ def main():
     ap.add_argument('--seed', type=int, default=1)
     ap.add_argument('--all-checks', action='store_true')
     ap.add_argument('--mutants', action='store_true')
+    ap.add_argument('--fixes', action='store_true',
+                    help='un-apply each fix commit (mutants/fix-*.patch -R)')
+    ap.add_argument('--no-seeded', action='store_true')
     ap.add_argument('--only', default='')
     ap.add_argument('--out', default=os.path.join(HERE, 'seeded',
                                                   'MATRIX.json'))
@@ -74,7 +79,7 @@ def main():
     jobs = []
     only = set(filter(None, a.only.split(',')))
     sdir = os.path.join(HERE, 'seeded')
-    for sid in sorted(os.listdir(sdir)):
+    for sid in ([] if a.no_seeded else sorted(os.listdir(sdir))):
         p = os.path.join(sdir, sid, 'patch.diff')
         if not os.path.isfile(p) or (only and sid not in only):
             continue
@@ -91,6 +96,25 @@ def main():
                 continue
             jobs.append((name, os.path.join(mdir, name), [f'C{m.group(1)}'],
                          a.tier, a.seed, a.shards))
+    if a.fixes:
+        with open(os.path.join(HERE, 'known_findings.json')) as f:
+            kf = json.load(f)['findings']
+        mdir = os.path.join(HERE, 'mutants')
+        for name in sorted(os.listdir(mdir)):
+            m = re.match(r'fix-(\w+)\.patch', name)
+            if not m or (only and name not in only):
+                continue
+            props = []
+            for k in kf:
+                if k.get('status') == 'fixed' and f'({m.group(1)}' in k['what']:
+                    props = [k['property']] + re.findall(
+                        r'\bC\d\d\b', k['what'].split('also', 1)[1]
+                        if 'also' in k['what'] else '')
+            props = list(dict.fromkeys(props))
+            if props:
+                jobs.append(('unfix-' + m.group(1),
+                             os.path.join(mdir, name), props, a.tier, a.seed,
+                             a.shards, True))
     try:
         with open(a.out) as f:
             table = json.load(f)
